@@ -3,6 +3,7 @@
 The central clause (the reported duration is the FIRST tick reaching the budget) is the ceiling of
 a quadratic root selected by data-dependent branches and is NOT decided here (DESIGN.md 3/C03, 4.3).
 """
+from fractions import Fraction
 import itertools
 
 from .. import poly
@@ -413,6 +414,112 @@ def check_reversal_positions(ck, fn, main_paths, deep=False):
     ck.floor('reversing moves evaluated for their position', n_eval, 40)
 
 
+def landing_grid(deep=False):
+    """Reversing moves whose accumulator polynomial comes back to a step boundary exactly at an
+    integer tick of the return leg (the rationale's "accumulator landing exactly on 0 / 2^31"):
+    with the accumulator cleared and no step made before the reversal the polynomial returns to
+    its start value exactly at tick -2*rate_eff/accel, an integer whenever accel divides
+    2*rate_eff - systematic, not exotic.  Plus members of the family with steps made in both
+    directions and a landing on the reversal tick itself."""
+    M = 2 ** 31
+    pts = []
+    for R in ((55, 481, 2122) if not deep else (7, 55, 56, 481, 1000, 2122, 2577)):
+        pts += [(1, R, -2, 0), (1, -R, 2, M - 1), (1, R, -1, 0), (1, -R, 1, M - 1),
+                (2, R, -2, 0), (2, -R, 2, M - 1)]
+    pts += [(2, -3, 3, 0), (2, 3, -3, M - 1), (2, -500001, 1000000, 0), (2, 5, -5, M - 2),
+            (18, 1800095000, -54567890, 1827432628), (15, 1800095000, -54567890, 373852177),
+            (61, -1050109930, 5099123, 1820581577), (52, -1050109930, 5099123, 755271262),
+            (6, 1204481500, -77012345, 1323294408)]
+    return pts
+
+
+def recurrence_lm(steps, rate, accel, accum, max_ticks=400000):
+    """The C01 recurrence stepped tick by tick (the specification itself, in integers): first tick
+    at which `steps` motor steps have been made in either direction -> (tick, position, accum)."""
+    M = 2 ** 31
+    r = rate - int(Fraction(accel, 2))
+    acc, pos, made = accum, 0, 0
+    for t in range(1, max_ticks + 1):
+        r += accel
+        if abs(r) > M - 1:
+            return None
+        acc += r
+        if acc >= M:
+            acc, pos, made = acc - M, pos + 1, made + 1
+        elif acc < 0:
+            acc, pos, made = acc + M, pos - 1, made + 1
+        if made >= steps:
+            return t, pos, acc
+    return None
+
+
+def check_return_landing(ck, fn, main_paths, deep=False):
+    """D14 - exact landings on the return leg: on the grid of `landing_grid` the triple reported
+    by the path of calculate_lm that the input takes (path conditions and result terms evaluated
+    in exact rationals; square roots of perfect squares are exact) must equal what the recurrence
+    gives.  A root of the duration quadratic that is an integer T means the accumulator sits ON
+    the boundary at T; on the way back the step is made only when it has moved past it, at T+1."""
+    q = fn.qualname
+    paths = []
+    for o, cut, mode in main_paths:
+        if mode != 'numeric' or not (isinstance(o.value, Tup) and len(o.value.items) == 3
+                                     and all(isinstance(x, Sym) for x in o.value.items)):
+            continue
+        conds = []
+        for c_, t_ in o.state.path:
+            nc = motion.norm_path_cond(c_, t_)
+            if nc is None:
+                conds = None
+                break
+            conds.append((nc[0].fingerprint(), nc[1], nc[0]))
+        if conds is None:
+            continue
+        conds.sort(key=lambda c: len(c[2].all_atoms()))
+        paths.append((conds, o.value.items))
+    witness = None
+    n_eval = 0
+    poly.APPROX_SQRT[0] = True
+    try:
+        for sv, rv, av, acc in landing_grid(deep):
+            want = recurrence_lm(sv, rv, av, acc)
+            if want is None:
+                continue
+            asg = {'steps': Fraction(sv), 'rate': Fraction(rv), 'accel': Fraction(av),
+                   'accum': Fraction(acc)}
+            cache = {}
+            for conds, triple in paths:
+                ok = True
+                for fp, op, e in conds:
+                    if fp not in cache:
+                        try:
+                            cache[fp] = e.evaluate(asg)
+                        except (ZeroDivisionError, KeyError, ValueError, OverflowError):
+                            cache[fp] = None
+                    if cache[fp] is None or not motion._holds(cache[fp], op):
+                        ok = False
+                        break
+                if not ok:
+                    continue
+                try:
+                    got = tuple(x.evaluate(asg) for x in triple)
+                except (ZeroDivisionError, KeyError, ValueError, OverflowError):
+                    break
+                n_eval += 1
+                if got != tuple(Fraction(w) for w in want) and witness is None:
+                    witness = ((sv, rv, av, acc), tuple(int(g) if g.denominator == 1 else float(g)
+                                                        for g in got), want)
+                break
+    finally:
+        poly.APPROX_SQRT[0] = False
+    w = witness or ((0, 0, 0, 0), (), ())
+    ck.ob('C03-D14-return-landing', q, witness is None,
+          'calculate_lm%s reports %s; stepping the recurrence gives %s (the accumulator '
+          'polynomial sits exactly on a step boundary at an integer tick of the return leg: the '
+          'step back is made one tick later)' % (w[0], w[1], w[2]), fn.loc(),
+          key='calculate_lm::return-landing')
+    ck.floor('exact-landing moves evaluated', n_eval, 12)
+
+
 def check_root_guard(ck, fn, main_paths):
     """D8: the roots of the duration quadratic are computed for every non-negative discriminant.
     A path that skips the square root may do so only under discriminant < 0 (no real root); a
@@ -633,11 +740,13 @@ def run(ck, prog, tier):
         'after tick 1 (compared on integer points; this rule found defect F10); (D11) a path '
         'taken because the step count exceeds the steps made before a reversal lies where the rate '
         'does change sign after tick 1; (D12) no move of a witness grid takes a computing path that '
-        'returns a constant (fallback) duration - one family is the recorded known finding K1; (D10) the steps '
+        'returns a constant (fallback) duration (this rule found K1, repaired with F17); (D10) the steps '
         'made before a reversal are FLOOR(|C(T)|/2^31) with the accumulator polynomial of D3 at '
-        'the reversal tick. NOT decided (no static rule in reach): that the chosen root is the '
-        '*first* tick reaching the budget when the accumulator lands exactly on a step boundary, '
-        'and accumulator in [0,2^31) there.')
+        'the reversal tick; (D13) on a grid of reversing moves the reported position follows from '
+        'those steps; (D14) on a grid of reversing moves whose accumulator polynomial comes back '
+        'to a step boundary exactly at an integer tick the reported triple equals the recurrence\'s '
+        '(found defect F17). NOT decided in general: that the chosen root is the *first* tick '
+        'reaching the budget - only on the grids of D12-D14.')
     ck.assumptions += ['inputs are integers', 'mpmath rounds correctly to the configured precision',
                        'duration minimality / root selection is outside this check']
     ck.trusted += ['python ast module', 'vf.poly normal forms', 'vf.interp']
@@ -848,6 +957,7 @@ def run(ck, prog, tier):
     check_reversal_claims(ck, fn, main_paths)
     check_fallback_duration(ck, fn, main_paths, deep=(tier == 'thorough'))
     check_reversal_positions(ck, fn, main_paths, deep=(tier == 'thorough'))
+    check_return_landing(ck, fn, main_paths, deep=(tier == 'thorough'))
     check_root_positive(ck, fn, main_paths)
     check_steps_before_reversal(ck, fn, main_paths)
     n_paths, n_ops = motion.check_precision(ck, 'C03-D5-precision', fn, all_out)
